@@ -36,6 +36,8 @@ Ops == { <<"getitem", i>> : i \in Instruments }
               <<"ts-no-opt", "ok">> }
        \cup { <<"str">>, <<"repr">>, <<"eq-twin">>, <<"eq-other">>, <<"hash-events">>, <<"derived">>,
               <<"str-events">> }
+       \* copying, pickling, iterating, indexing and introspecting are read-only uses too
+       \cup { <<"copy">>, <<"deepcopy">>, <<"pickle">>, <<"iterate">>, <<"introspect">>, <<"compare-events">> }
        \cup { <<"assign-event">>, <<"assign-track">> }
 
 VARIABLES store, ops, last
